@@ -121,6 +121,9 @@ func c14Scenario(c *choice.Ctx, rep *report.R, k c14Kind) {
 		if cl.panicked != nil {
 			fail("panic", fmt.Sprintf("exchange %d: %v", cl.idx, cl.panicked))
 		}
+		if cl.both != nil {
+			fail("reply-with-error", fmt.Sprintf("exchange %d returned a message together with an error (the caller treats it as failed): %v", cl.idx, cl.both))
+		}
 		if cl.nilnil {
 			fail("nil-nil", fmt.Sprintf("exchange %d returned (nil, nil)", cl.idx))
 		}
